@@ -222,6 +222,33 @@ def m4(prog: Program, chk: Check) -> None:
     chk.add("M4", u, "caps zipped with the bond legs in list order", ok)
 
 
+# --------------------------------------------------------------------- M5
+def m5(prog: Program, chk: Check) -> None:
+    chk.rule("M5", "what a process tensor hands to its consumers (MPO, cap, lam tensors, bond "
+             "dimensions) is computed from its current tensors: no getter serves a memoised value "
+             "whose key leaves out an argument, or that survives a setter rewriting the tensors "
+             "it was computed from", floor=1)
+    from rules.c20 import _a7_unit, _a7b_unit
+    n = 0
+    for u in prog.units_in("process_tensor"):
+        if isinstance(u.node, ast.Lambda) or u.cls is None:
+            continue
+        n += 1
+        for (st, attr, key_expr, covered, missing) in _a7_unit(u):
+            chk.add("M5", u, f"memo {attr}[{norm(key_expr)}] <- {norm(st.value)[:40]}", not missing,
+                    f"keyed / validated by {covered}" if not missing else
+                    f"the stored value depends on {missing}, which is not part of the key", st)
+        for (st, attr, mu, written) in _a7b_unit(prog, u):
+            chk.add("M5", u, f"memo {attr} vs {mu.qual.split(':')[1]} writing {written}", False,
+                    f"{mu.qual.split(':')[1]} rewrites {written}, from which the entries of {attr} "
+                    f"were computed, and does not drop them: a later contraction uses the tensor "
+                    f"of the old state", st)
+    chk.add("M5", prog.module("process_tensor"),
+            f"{n} methods of the process-tensor classes scanned for memo idioms", n >= 40,
+            "" if n >= 40 else "the module shrank below what was confirmed by hand")
+
+
+
 def run(prog: Program, chk: Check) -> None:
     chk.explanation = (
         "Claims C03 IN PART: structural necessary conditions of 'contracting any process tensor "
@@ -229,7 +256,8 @@ def run(prog: Program, chk: Check) -> None:
         "tensor on the leg-role table (past bond, future bond, system in, system out) and the "
         "rank-3 delta expansion; M2 one convention for applying system superoperators and caps; "
         "M3 the input guards (dimension, dt, shortest PT bounds num_steps, no initial tensor); "
-        "M4 the list position of a process tensor only selects its own bond leg / cap / MPO. "
+        "M4 the list position of a process tensor only selects its own bond leg / cap / MPO; "
+        "M5 no getter of a process tensor serves a memoised tensor that a setter has outdated. "
         "A consumer that deviates from the table computes wrong states for every non-trivial "
         "process tensor.")
     chk.not_decided = ("Exactness against an independently simulated joint evolution, "
@@ -243,3 +271,4 @@ def run(prog: Program, chk: Check) -> None:
     m2(prog, chk)
     m3(prog, chk)
     m4(prog, chk)
+    m5(prog, chk)
